@@ -286,7 +286,7 @@ class CardMonitor(Monitor):
 
 
 def make_monitors():
-    return [driver.Observer(0.1), CardMonitor()]
+    return [driver.Observer(0.1), driver.Interleaver(), CardMonitor()]
 
 
 def gen_kwargs(rng):
